@@ -116,6 +116,11 @@ def _msgstr(m):
     return "ok id=%s msm=%d unk=%d ser=%s attrs=%s" % (m.identity, 1 if m.ismsm else 0, unk, ser, attrs)
 
 
+def attr_digest(attrs):
+    """short digest of a canonical attribute string (used inside reader events)"""
+    return hashlib.sha1(attrs.encode("utf-8", "surrogatepass")).hexdigest()[:12]
+
+
 def label_arg(tok):
     # "T" stands for Python True; the model receives 1
     return True if tok == "T" else int(tok)
@@ -216,7 +221,8 @@ def run_reader(reader, resume, events):
         try:
             raw, parsed = next(reader)
             ident = "None" if parsed is None else parsed.identity
-            events.append("F:%s:%s" % (hx(raw), ident))
+            dig = "-" if parsed is None else attr_digest(";".join(k + "=" + valstr(v) for k, v in sorted(pubattrs(parsed))))
+            events.append("F:%s:%s:%s" % (hx(raw), ident, dig))
         except StopIteration:
             events.append("STOP")
             break
@@ -471,6 +477,18 @@ def canon_model(line, tables=None):
     """bring a model output line into the implementation's canonical form:
     float products, public attributes only, attributes sorted by name, descriptions hashed"""
     line = _F.sub(_fhex, line)
+    if line.startswith("F:") or " F:" in line:
+        # reader events: F:<raw>:<identity>:<attributes> -> attributes replaced by their digest
+        toks = []
+        for t in line.split(" "):
+            if t.startswith("F:"):
+                parts = t.split(":", 3)
+                if len(parts) == 4 and parts[3] != "-":
+                    items = [a for a in parts[3].split(";") if a and not a.startswith("_")]
+                    parts[3] = attr_digest(";".join(sorted(items, key=lambda a: (a.split("=", 1)[0], a))))
+                    t = ":".join(parts)
+            toks.append(t)
+        line = " ".join(toks)
     if " attrs=" in line:
         head, attrs = line.rsplit(" attrs=", 1)
         items = [a for a in attrs.split(";") if a and not a.startswith("_")]
